@@ -573,6 +573,13 @@ def check_addr_text(a, text):
 
 
 def oracle(line, out):
+    try:
+        return oracle_(line, out)
+    except (IndexError, ValueError) as e:     # truncated line of a crashed harness
+        return "malformed implementation output (%s)" % type(e).__name__
+
+
+def oracle_(line, out):
     t = line.split(" ")
     o = out.split(" ")
     cmd = t[1]
@@ -720,18 +727,13 @@ def nontrivial(line, out):
     o = out.split(" ")
     cmd = line.split(" ")[1]
     if cmd in ("A", "P"):
-        return o[1] != "N"
+        return len(o) > 1 and o[1] != "N"
     if cmd == "G":
-        return o[2] != "N"
+        return len(o) > 2 and o[2] != "N"
     return True
 
 
 # ---------------------------------------------------------------------------------------------------
-def replay_dict(line, out, why):
-    """adds trigger keys used by known/C18.json"""
-    return {}
-
-
 def run(chk):
     info, err = pregen()
     if info is None:
